@@ -76,6 +76,7 @@ static void armSanitizer() {}
 #endif
 
 int runFidelityGate(const std::string& buildDir, bool verbose);
+extern "C" int __llvm_profile_write_file(void) __attribute__((weak));
 
 static std::vector<Scenario>& reg()
 {
@@ -1218,6 +1219,8 @@ int main(int argc, char** argv)
 			char sp[600];
 			snprintf(sp, sizeof sp, "%s.%d", sigPath, w);
 			workerMain(jobs, w, W, startJob, tier, deadline, sp, doWarm);
+			if (__llvm_profile_write_file) // coverage builds only (tools/coverage.sh): workers leave through _exit
+				__llvm_profile_write_file();
 			_exit(0);
 		}
 		close(pfd[1]);
